@@ -267,6 +267,13 @@ class WireMon(object):
         for sh in args[2]:
             pre[sh] = container_data(paths[sh]) if sh in paths else None
         rec["vf_pre"] = pre
+        # ground truth about the whole slot on this server (other share numbers included), independent of what the
+        # server chooses to tell the client in its answer
+        allcs = {}
+        for sh, p in paths.items():
+            c = parse_cs(container_data(p) or b"")
+            allcs[sh] = c[4] if c else None
+        rec["vf_pre_all"] = allcs
 
     def _post(self, vs, meth, args, rec):
         if "client" not in rec or not args or args[0] != self.si:
